@@ -27,6 +27,9 @@ CONNECT_FAULTS = ("ConnectError", "ConnectTimeout")
 TLS_FAULTS = ("ConnectError", "ConnectTimeout")
 READ_FAULTS = ("ReadError", "ReadTimeout", "EOF")
 WRITE_FAULTS = ("WriteError", "WriteTimeout", "PartialWrite")
+# ("WriteErrorSoft" - the write fails, the transport lives on - is only injected by scenarios in which the peer has
+# already answered: elsewhere httpcore, by design, goes on to read a response that a peer which never got the request
+# will not send, and the "hang" says nothing about the library)
 FAULTS_FOR = {
     "connect": CONNECT_FAULTS,
     "start_tls": TLS_FAULTS,
